@@ -597,6 +597,10 @@ func (fi *fnInfo) abs(v ssa.Value, env *penv, at *ssa.BasicBlock, edge int, dept
 			return fi.abs(x.X, env, at, edge, depth+1).flip()
 		}
 	case *ssa.BinOp:
+		// `i >= 0`, `i != -1`, … on the result of an index search: -1 or a slice index
+		if r := fi.signTest(x, env, depth); r != unk {
+			return r
+		}
 		if x.Op == token.EQL || x.Op == token.NEQ {
 			in, tv := condAtoms(x)
 			if in != ssa.Value(x) {
@@ -618,6 +622,146 @@ func (fi *fnInfo) abs(v ssa.Value, env *penv, at *ssa.BasicBlock, edge int, dept
 	}
 	if ev, val := fi.edgeFact(at, edge); ev != nil && ev == v {
 		return val
+	}
+	return unk
+}
+
+// sign: -1 when v is the constant -1, +1 when it is a slice index or a length
+// (never negative), 0 when unknown — under what the path has bound.
+func (fi *fnInfo) sign(v ssa.Value, env *penv, depth int) int {
+	if depth > 6 {
+		return 0
+	}
+	v = unwrap(v)
+	switch x := v.(type) {
+	case *ssa.Const:
+		if x.Value != nil && x.Value.Kind() == constant.Int {
+			if n, ok := constant.Int64Val(x.Value); ok {
+				if n == -1 {
+					return -1
+				}
+				if n >= 0 {
+					return 1
+				}
+			}
+		}
+	case *ssa.Phi:
+		if env != nil {
+			if l, ok := env.leaf[x]; ok {
+				return fi.sign(l, env, depth+1)
+			}
+			if a, ok := env.phi[x]; ok {
+				// bound to a constant operand: which ones are there?
+				m1, other := false, false
+				for _, e := range x.Edges {
+					if k, isC := e.(*ssa.Const); isC && constAbs(k) == a {
+						if fi.sign(k, nil, depth+1) == -1 {
+							m1 = true
+						} else {
+							other = true
+						}
+					}
+				}
+				switch {
+				case a == zero:
+					return 1
+				case m1 && !other:
+					return -1
+				}
+				return 0
+			}
+		}
+		first := 0
+		for i, e := range x.Edges {
+			if e == ssa.Value(x) {
+				continue
+			}
+			sg := fi.sign(e, env, depth+1)
+			if i == 0 || first == 0 {
+				first = sg
+			}
+			if sg == 0 || sg != first {
+				return 0
+			}
+		}
+		return first
+	case *ssa.BinOp:
+		// the index of `for i := range s`: i = φ(-1, i) + 1
+		if x.Op == token.ADD {
+			for _, pr := range [][2]ssa.Value{{x.X, x.Y}, {x.Y, x.X}} {
+				k, isC := pr[1].(*ssa.Const)
+				p, isPhi := pr[0].(*ssa.Phi)
+				if !isC || !isPhi || k.Value == nil || k.Value.Kind() != constant.Int {
+					continue
+				}
+				if n, ok := constant.Int64Val(k.Value); !ok || n != 1 {
+					continue
+				}
+				okShape := len(p.Edges) > 0
+				for _, e := range p.Edges {
+					if e == ssa.Value(x) {
+						continue
+					}
+					if kc, isK := e.(*ssa.Const); !isK || fi.sign(kc, nil, depth+1) == 0 {
+						okShape = false
+					}
+				}
+				if okShape {
+					return 1
+				}
+			}
+		}
+	case *ssa.Call:
+		if b, ok := x.Call.Value.(*ssa.Builtin); ok && (b.Name() == "len" || b.Name() == "cap") {
+			return 1
+		}
+	}
+	return 0
+}
+
+// signTest decides comparisons with 0 / -1 of a value whose sign is known.
+func (fi *fnInfo) signTest(x *ssa.BinOp, env *penv, depth int) absval {
+	var other ssa.Value
+	var k *ssa.Const
+	op := x.Op
+	if kc, ok := x.Y.(*ssa.Const); ok {
+		other, k = x.X, kc
+	} else if kc, ok := x.X.(*ssa.Const); ok {
+		other, k = x.Y, kc
+		switch op { // mirror
+		case token.LSS:
+			op = token.GTR
+		case token.GTR:
+			op = token.LSS
+		case token.LEQ:
+			op = token.GEQ
+		case token.GEQ:
+			op = token.LEQ
+		}
+	}
+	if k == nil || k.Value == nil || k.Value.Kind() != constant.Int {
+		return unk
+	}
+	n, ok := constant.Int64Val(k.Value)
+	if !ok || (n != 0 && n != -1) {
+		return unk
+	}
+	sg := fi.sign(other, env, depth+1)
+	if sg == 0 {
+		return unk
+	}
+	nonneg := sg == 1
+	b := func(t bool) absval {
+		if t {
+			return nonzero
+		}
+		return zero
+	}
+	switch {
+	case op == token.GEQ && n == 0, op == token.GTR && n == -1, op == token.NEQ && n == -1:
+		return b(nonneg)
+	case op == token.LSS && n == 0, op == token.LEQ && n == -1, op == token.EQL && n == -1:
+		return b(!nonneg)
 	}
 	return unk
 }
